@@ -1,5 +1,15 @@
-"""C12 - decided with Numscript.tla (see numscript.py)."""
-import numscript
+"""C12 - decided with Numscript.tla (see numscript.py); plus, on the real Commander with the real lock manager, that
+a request whose script fails at any stage leaves nothing behind that blocks later requests (engine.py, PalFunds)."""
+import json
+import numscript, engine
 LEVEL = numscript.LEVEL
-def run(ctx): numscript.run_prop(ctx, "C12")
-def replay(ctx, path): numscript.replay_prop(ctx, "C12", path)
+def run(ctx):
+    engine.run_prop(ctx, "C12")
+    eng = dict(ctx.coverage)
+    numscript.run_prop(ctx, "C12")
+    ctx.coverage["engine_part"] = {k: eng[k] for k in eng if k in ("states", "transitions", "behaviours_replayed", "replay_steps", "rule")}
+def replay(ctx, path):
+    art = json.load(open(path))
+    if art["replay"].get("kind") == "engine-trace":
+        return engine.replay_prop(ctx, "C12", path)
+    numscript.replay_prop(ctx, "C12", path)
